@@ -181,8 +181,8 @@ def stepDn (st : DNState) (w : List String) : DNState × String :=
 
 structure St where
   dn : DNState
-  kind : Protection.Kind
-  prot : Option Protection.Rec
+  kind : Protection.PKind
+  prot : Option Protection.PRec
   cf : List (String × CondFmt.Sheet)
 
 /-- symbolic ISO hash: injective in all three arguments -/
@@ -194,7 +194,7 @@ def insertSorted (x : String) : List String → List String
 
 def sortStrs (l : List String) : List String := l.foldr insertSorted []
 
-def showProt : Option Protection.Rec → String
+def showProt : Option Protection.PRec → String
   | none => "none"
   | some r =>
     let b (x : List Char) := if x.isEmpty then "0" else "1"
